@@ -61,8 +61,49 @@ const SEGMENTS: &[(&str, &str, &str)] = &[
     ("constructor-callee-await", "async function make() { const r = await order({k: K1}); return new (class { constructor(v) { this.v = v; } })(r + 1); } const o = await make(); return o.v;", "v"),
     ("labelled-break-across-await", "let n = 0; outer: for (let i = 0; i < 3; i++) { for (let j = 0; j < 3; j++) { n += await order({k: K1}); if (j === 1) continue outer; if (i === 2) break outer; } } return n;", "v"),
     ("try-finally-return-override", "const f = async () => { try { return \"t\"; } finally { const r = await order({k: K1}); if (r > 100) { return \"never\"; } } }; return await f();", "v"),
+    ("handlers-on-pending-promise-fulfilled", "const p = order({k: P1}); const hs = []; p.then((v) => { hs.push(\"a\" + v); }); p.then((v) => { hs.push(\"b\" + v); }, () => { hs.push(\"b!\"); }); p.finally(() => { hs.push(\"f\"); }); p.then((v) => { hs.push(\"c\" + v); }); const v = await p; return hs.join(\",\") + \"=\" + v;", "p"),
+    ("handlers-on-pending-promise-rejected", "const p = order({k: R1}); const hs = []; p.catch((e) => { hs.push(\"first:\" + e); }); p.then(() => { hs.push(\"no\"); }, (e) => { hs.push(\"second:\" + e); }); p.finally(() => { hs.push(\"fin\"); }).catch(() => {}); p.catch((e) => { hs.push(\"third\"); }); let got = \"\"; try { await p; } catch (e) { got = String(e); } return hs.join(\",\") + \"=\" + got;", "r"),
+    ("then-chain-on-rejected-promise", "const p = order({k: R1}); const q = p.then((v) => v + 1).catch((e) => \"rec:\" + e).then((v) => v + \"!\"); let direct = \"\"; try { await p; } catch (e) { direct = String(e); } return (await q) + \"/\" + direct;", "r"),
+    ("race-all-settled-mixed", "const a = order({k: P1}); const b = order({k: R1}); const r = await Promise.all([a.then((v) => \"ok\" + v), b.catch((e) => \"ko:\" + e)]); return r.join(\"+\");", "pr"),
     ("closure-counter-across-await", "let c = 0; const inc = () => ++c; inc(); const r = await order({k: K1}); inc(); return c * 10 + r;", "v"),
 ];
+
+
+/// A segment built from a pending completion (what is in flight when a finally block starts) and a
+/// suspension site (how the finally block reaches the host). Returns (tag, body of an async function).
+fn completion_segment(tape: &mut Tape, k1: u64, k2: u64) -> (String, String) {
+    let comp = tape.below(8);
+    let site = tape.below(6);
+    let comp_names = ["normal", "return", "throw-callee-object", "break", "continue", "labelled-break", "labelled-continue", "throw-error-subclass"];
+    let site_names = ["await-order", "await-in-callee", "await-in-callee-of-callee", "await-in-loop", "await-order-twice", "await-in-callee-with-own-finally"];
+    let labelled = comp == 5 || comp == 6;
+    let action = match comp {
+        0 => "s += \"n\";",
+        1 => "return \"ret:\" + s;",
+        2 => "thrower(i);",
+        3 => "break;",
+        4 => "continue;",
+        5 => "break outer;",
+        6 => "continue outer;",
+        _ => "throw new MyErr(\"me\" + i);",
+    };
+    let site_code = match site {
+        0 => format!("s += \"f\" + (await order({{k: {k1}}}));"),
+        1 => format!("s += \"f\" + (await sub({k1}));"),
+        2 => format!("s += \"f\" + (await sub2({k1}));"),
+        3 => format!("for (let q = 0; q < 2; q++) {{ let w = q; s += \"f\" + w + (await order({{k: {k1}}})); }}"),
+        4 => format!("s += \"f\" + (await order({{k: {k1}}})) + (await order({{k: {k2}}}));"),
+        _ => format!("s += \"f\" + (await sub3({k1}, {k2}));"),
+    };
+    let helpers = "function thrower(i) { throw {code: 42 + i, where: \"callee\", list: [i, i + 1]}; } class MyErr extends Error { constructor(m) { super(m); this.extra = {m}; } } async function sub(k) { const l = 1; return (await order({k})) + l; } async function sub2(k) { let m = 0; try { return (await sub(k)) + 10; } finally { m++; } } async function sub3(a, b) { let t = \"\"; try { t += await order({k: a}); } finally { t += \"|\" + (await order({k: b})); } return t; }";
+    let inner_open = if labelled { "for (let j = 0; j < 2; j++) { " } else { "" };
+    let inner_close = if labelled { " s += \"j\"; }" } else { "" };
+    let label = if labelled { "outer: " } else { "" };
+    let text = format!(
+        "{helpers} let s = \"\"; try {{ {label}for (let i = 0; i < 3; i++) {{ {inner_open}try {{ let blk = i; s += \"a\" + blk; if (i === 1) {{ {action} }} s += \"b\"; }} finally {{ {site_code} }} s += \"c\";{inner_close} }} }} catch (e) {{ return \"caught:\" + (e.code || e.message) + \":\" + (e.where || JSON.stringify(e.extra)) + \":\" + JSON.stringify(e.list || null) + \":\" + (e instanceof Error) + \":\" + s; }} return \"end:\" + s;"
+    );
+    (format!("pending:{}x{}", comp_names[comp], site_names[site]), text)
+}
 
 #[derive(Clone, Copy, PartialEq, Debug)]
 enum Kind {
@@ -70,6 +111,8 @@ enum Kind {
     Error,
     Promise,
     Object,
+    /// pending host promise that the host later REJECTS with the string "rej <k>"
+    Reject,
 }
 
 fn kind_of(v: &Value) -> Kind {
@@ -77,6 +120,7 @@ fn kind_of(v: &Value) -> Kind {
         Some("e") => Kind::Error,
         Some("p") => Kind::Promise,
         Some("o") => Kind::Object,
+        Some("r") => Kind::Reject,
         _ => Kind::Value,
     }
 }
@@ -136,6 +180,10 @@ fn run_host(src: &str, kinds: &BTreeMap<u64, Kind>, sched: &[u64], gc_threshold:
                 StepResult::NeedImports(_) => return describe_step(&res),
                 StepResult::Suspended { pending, cancelled: _ } => {
                     suspensions += 1;
+                    // host-forced collection while the run is parked (schedule-chosen)
+                    if next(2) == 1 {
+                        interp.collect();
+                    }
                     // spurious steps while suspended
                     let spurious = next(3);
                     let mut early: Option<StepResult> = None;
@@ -165,7 +213,7 @@ fn run_host(src: &str, kinds: &BTreeMap<u64, Kind>, sched: &[u64], gc_threshold:
                                 Kind::Value => Ok(RuntimeValue::unguarded(JsValue::Number((k % 5) as f64))),
                                 Kind::Object => api::create_response_object(&mut interp, &value_json(k, Kind::Object)),
                                 Kind::Error => Err(JsError::type_error(format!("boom {}", k))),
-                                Kind::Promise => {
+                                Kind::Promise | Kind::Reject => {
                                     let p = api::create_promise(&mut interp);
                                     let handle = RuntimeValue::unguarded(p.value().clone());
                                     outstanding.push((k, p));
@@ -185,9 +233,16 @@ fn run_host(src: &str, kinds: &BTreeMap<u64, Kind>, sched: &[u64], gc_threshold:
                             }
                             let idx = next(outstanding.len() as u64) as usize;
                             let (k, p) = outstanding.remove(idx);
-                            let val = RuntimeValue::unguarded(JsValue::Number((k % 5) as f64));
-                            if api::resolve_promise(&mut interp, &p, val).is_err() {
-                                return "error:resolve_promise".into();
+                            if kinds.get(&k).copied() == Some(Kind::Reject) {
+                                let reason = RuntimeValue::unguarded(JsValue::String(format!("rej {}", k).into()));
+                                if api::reject_promise(&mut interp, &p, reason).is_err() {
+                                    return "error:reject_promise".into();
+                                }
+                            } else {
+                                let val = RuntimeValue::unguarded(JsValue::Number((k % 5) as f64));
+                                if api::resolve_promise(&mut interp, &p, val).is_err() {
+                                    return "error:resolve_promise".into();
+                                }
                             }
                         }
                     } else {
@@ -223,7 +278,7 @@ impl Property for C07Prop {
         "C07"
     }
     fn rule(&self) -> String {
-        format!("Module programs that `await order(..)` (module tsrun:host) inside 1-5 async segments drawn from {} position templates (plain local, try/finally with pending return or throw, catch, loops, for-of over arrays and generators, methods using this, static methods, nested async calls, arrows capturing this, destructuring defaults, template literals, call arguments, conditional/logical operands, block-scoped let + closure, switch, object/array literals, finally+continue, compound assignment, Promise.all / then-chains over host promises, object responses), each with live state that is read after the await. Host kinds per order: immediate value, object value, error response, pending host promise settled later. Oracles: the program with `order` replaced by an in-program stub returning the same values gives the same (value, console output); 4 host schedules (spurious steps, settle order and batching of outstanding promises, GC threshold 1 / 100) agree; no stale-handle event. Segments gated by an open finding are not emitted (counted). Non-trivial: >= 1 suspension observed and >= 2 segments. Distinct = distinct program + schedules.", SEGMENTS.len())
+        format!("Module programs that `await order(..)` (module tsrun:host) inside 1-5 async segments drawn from {} position templates (plain local, try/finally with pending return or throw, catch, loops, for-of over arrays and generators, methods using this, static methods, nested async calls, arrows capturing this, destructuring defaults, template literals, call arguments, conditional/logical operands, block-scoped let + closure, switch, object/array literals, finally+continue, compound assignment, Promise.all / then-chains over host promises, object responses), each with live state that is read after the await. One segment in three is compositional instead: a pending completion (normal, return, object thrown by a callee, Error subclass, break, continue, labelled break, labelled continue out of an inner loop) in flight while a finally block suspends through one of six sites (await order, await in a callee, in a callee of a callee, in a loop, twice, in a callee with its own try/finally), inside a three-iteration loop with block-scoped state, all observed afterwards. Handler templates register 3-4 then/catch/finally handlers on a still-pending host promise and compare their firing order and values after the await. Host kinds per order: immediate value, object value, error response, pending host promise resolved later, pending host promise rejected later; the host also forces collect() at schedule-chosen suspensions. Oracles: the program with `order` replaced by an in-program stub returning the same values gives the same (value, console output); 4 host schedules (spurious steps, settle order and batching of outstanding promises, GC threshold 1 / 100) agree; no stale-handle event. Segments gated by an open finding are not emitted (counted). Non-trivial: >= 1 suspension observed and >= 2 segments. Distinct = distinct program + schedules.", SEGMENTS.len())
     }
     fn assumptions(&self) -> Vec<String> {
         vec!["`order()` is a blocking syscall that suspends the whole VM, so the sequential inline-value relation is exact; promise reactions run synchronously by design, so only what the property states (value, output, errors) is compared".into()]
@@ -240,6 +295,18 @@ impl Property for C07Prop {
         let mut next_k = 1u64;
         let mut main = String::new();
         for s in 0..n {
+            // one segment in three is compositional: pending completion x suspension site
+            if tape.below(3) == 2 {
+                let (k1, k2) = (next_k, next_k + 1);
+                next_k += 2;
+                kinds.insert(k1.to_string(), json!("v"));
+                kinds.insert(k2.to_string(), json!("v"));
+                let (tag, text) = completion_segment(tape, k1, k2);
+                tags.push(format!("seg:{}", tag));
+                body.push_str(&format!("async function seg{}() {{ {} }}\n", s, text));
+                main.push_str(&format!("  try {{ __t({}, await seg{}()); }} catch (e) {{ __t({}, \"caught:\" + String(e)); }}\n", s, s, s));
+                continue;
+            }
             let mut pick = tape.below(SEGMENTS.len());
             // skip segments gated by an open finding (exact tag), counting the exclusion
             let mut guard = 0;
@@ -260,6 +327,7 @@ impl Property for C07Prop {
                 let (ph1, ph2) = match ch {
                     'e' => ("KE", "KE"),
                     'p' => ("P1", "P2"),
+                    'r' => ("R1", "R2"),
                     _ => ("K1", "K2"),
                 };
                 // first occurrence of the class fills the "1" placeholder, the second the "2" placeholder
@@ -287,6 +355,7 @@ impl Property for C07Prop {
                 Kind::Object => format!("{}: () => ({})", k, value_js(kk, Kind::Object)),
                 Kind::Error => format!("{}: () => {{ throw \"{}\"; }}", k, err_text(kk)),
                 Kind::Promise => format!("{}: () => Promise.resolve({})", k, value_js(kk, Kind::Value)),
+                Kind::Reject => format!("{}: () => Promise.reject(\"rej {}\")", k, kk),
             };
             table.push_str(&entry);
             table.push_str(", ");
